@@ -870,6 +870,17 @@ class SymBytes(object):
             return bytes(self.items)
         raise Unsupported("bytes() of symbolic content")
 
+    # text operations: only for content that is concrete (a slice with
+    # concrete items cut out of a partly symbolic datagram)
+    def decode(self, *a, **k):
+        return bytes(self).decode(*a, **k)
+
+    def strip(self, *a):
+        return bytes(self).strip(*a)
+
+    def rstrip(self, *a):
+        return bytes(self).rstrip(*a)
+
     def __repr__(self):
         return "SymBytes(%d)" % len(self.items)
 
